@@ -68,6 +68,8 @@ class Closable:
 
     def close(self):
         self.log.append("close")
+        if getattr(self, "close_fails", False):
+            raise OSError("release failed")
 
 
 class PlainIter:
@@ -112,7 +114,8 @@ class FileWrapper:
 SHAPES = ["str", "bytes", "empty", "list_str", "list_bytes", "gen_str", "gen_bytes", "plainiter", "file", "file_wrapper",
           "ret_response", "raise_response", "ret_error", "raise_error", "yield_response", "nested", "raise_exc",
           "gen_fail", "custom_500", "status_attr", "no_route", "wrong_method", "unsupported", "abort", "gen_raise_response",
-          "shared_error", "shared_response", "hook_self_remove"]
+          "shared_error", "shared_response", "hook_self_remove", "close_raises", "headers_then_raise", "headers_then_abort",
+          "headers_then_genfail"]
 
 
 def build(app, shape, ctx):
@@ -213,6 +216,30 @@ def build(app, shape, ctx):
             iterable[0] = None
             return Closable(["x"], log, fail_first=True)
         reg(f)
+    elif shape == "close_raises":
+        # the handler's iterable produced output and its close() fails (a cursor / lock / file whose release fails);
+        # with a status that carries no body (or HEAD) the framework itself closes it
+        def f():
+            app.response.status = s
+            iterable[0] = Closable([""] * k + [body or "x", "y"], log)
+            iterable[0].close_fails = True
+            return iterable[0]
+        reg(f)
+    elif shape in ("headers_then_raise", "headers_then_abort", "headers_then_genfail"):
+        # the handler prepares its response (length, range, type of the payload it meant to send) and then fails: raises,
+        # aborts, or returns a generator that fails at its first next()
+        def f():
+            app.response.status = 206
+            app.response.headers["Content-Length"] = "12"
+            app.response.headers["Content-Range"] = "bytes 2-13/30"
+            app.response.content_type = "application/x-payload"
+            if shape == "headers_then_raise":
+                raise ValueError("boom")
+            if shape == "headers_then_abort":
+                ombott.abort(s, body)
+            iterable[0] = None
+            return Closable(["x"], log, fail_first=True)
+        reg(f)
     elif shape == "custom_500":
         app.error(500)(lambda e: "custom:" + body)
 
@@ -289,7 +316,7 @@ def validate(calls, result_iter, chunks, iter_exc, method, log, iterable, fail, 
         if n != 1:
             return "handler iterable closed %d times" % n
         cover("closed-once")
-    if fail or shape in ("raise_exc", "gen_fail"):
+    if fail or shape in ("raise_exc", "gen_fail", "headers_then_raise", "headers_then_genfail"):
         if code != 500:
             return "failure answered with %s" % status
         cover("500")
@@ -298,7 +325,7 @@ def validate(calls, result_iter, chunks, iter_exc, method, log, iterable, fail, 
 
 # body text of these shapes is formatted into the ~600 character HTML error page whose utf-8 encoding costs ~800 solver
 # checks per path when any part of it is symbolic: the text is picked by a solver variable from a fixed list instead
-ERROR_PAGE = {"ret_error", "raise_error", "abort", "shared_error"}
+ERROR_PAGE = {"ret_error", "raise_error", "abort", "shared_error", "headers_then_abort"}
 ERROR_BODIES = ["", "x", "\u00e9\u20ac", "<b>{0}</b>"]
 
 
@@ -380,7 +407,11 @@ def make(shape):
                     chunks.append(c)
                 close = getattr(result, "close", None)
                 if close is not None:
-                    close()
+                    try:
+                        close()
+                    except OSError:
+                        if shape != "close_raises":      # (there the server's own close() call fails: the server's business)
+                            raise
             except Exception as e:
                 iter_exc = e
             r = validate(calls, result, chunks, iter_exc, method, log, iterable, fail, shape)
@@ -407,7 +438,7 @@ def with_hook_style(style, fn):
 
 
 SHARED = {"shared_error", "shared_response"}
-USES_STATUS = {"shared_error", "shared_response", "ret_response", "raise_response", "ret_error", "raise_error", "yield_response", "nested", "status_attr", "abort",
+USES_STATUS = {"close_raises", "headers_then_abort", "shared_error", "shared_response", "ret_response", "raise_response", "ret_error", "raise_error", "yield_response", "nested", "status_attr", "abort",
                "gen_raise_response"}
 
 
